@@ -12,8 +12,32 @@ LOADER_RULE = ("cases: grammar-based valid shorthand layouts (0-3 alias/plain mo
                "working/syntax-examples JSON blocks, hand-written weak-spot families, 2 structure-aware mutants per valid layout + mutants of the corpus, "
                "arbitrary JSON, random basic layouts over all key codes serialised with serde (and every key code once in every position), "
                "every key name/serde name + near misses, single-scalar substitutions in row/repeat names; every accepted layout is saved with serde, "
-               "reloaded, installed with Mapper::for_layout and driven with 40 random events under catch_unwind. evaluations = cases + substitutions; "
+               "reloaded, installed with Mapper::for_layout and driven with 40 random events under catch_unwind; every input value is also written as a "
+               "layout FILE (pretty / compact / re-spaced text; row letters biased towards JSON syntax characters: backslash or quote last, comma before a "
+               "closing bracket) and read by the real load_layout_from_file, whose answer must be the in-memory one (clauses C13.file_load, C15.file_load) and "
+               "never a panic (C14.file_panic, also on ~14 k generated texts: malformed files with non-ASCII characters around the error byte, long lines, "
+               "late lines, invalid UTF-8, truncations). evaluations = cases + substitutions; "
                "distinct_nontrivial = distinct input texts whose top level is an object holding a non-empty array (counted by the checker)")
+
+
+C15_TRUST = [t for t in LOADER_TRUST if not t.startswith("serde_json text <-> Value")] + [
+    "hand-written model coq/theories/JsonText.v of serde_json 1.0.128's text layer (ser.rs PrettyFormatter/CompactFormatter, format_escaped_str, itoa; de.rs "
+    "deserialize_any/parse_integer/parse_decimal/parse_exponent/f64_from_parts/SeqAccess/MapAccess/end, read.rs parse_str/parse_escape/decode_hex_escape, "
+    "core::str::from_utf8, BTreeMap insertion), tied to the crate by the loader engine's class TEXT: bytes of the real printers against print_pretty / "
+    "print_compact / save_text, outcomes of the real readers against parse_text on generated texts, the real load_layout_from_file against load_text",
+    "JNum None (floats, u64 above i64::MAX) has no printer in the model: print_pretty is claimed and compared only for values without such numbers (the "
+    "reader model does read them); serde's derive(Serialize) is modelled by JsonText.ser_layout (field order) + Serde.to_json, compared with the real bytes",
+    "file I/O of write_layout_to_global_config / load_layout_from_file (open, BufWriter/BufReader, the path /etc/totalmapper.json) is not modelled; the harness "
+    "writes and reads real files in its work directory",
+]
+C15_RULE = LOADER_RULE + ("; TEXT stream (harness/src/engines/loader_text.rs, seeded): serde_json's own pretty/compact output of generated values (floats "
+                          "included), a hand-written emitter with random whitespace and random escape spellings (\\uXXXX in both cases, surrogate pairs, short "
+                          "escapes, \\/), the number grammar (limits of i64/u64, long integers, fractions, exponents up to overflow), every escape incl. lone "
+                          "surrogates and bad escapes, duplicate and unsorted keys, nesting 120..131, byte-level mutations (truncation, trailing garbage, "
+                          "insertions), valid and invalid UTF-8 inside and outside strings, malformed layout files, re-spaced / compacted / mutated saved layouts; "
+                          "text_cases_by_kind_ok_err gives the distribution")
+C15_ASSUMPTIONS = ["the generators bound the correspondence, not the theorems; the text layer is modelled for serde_json 1.0.128 with the features of Cargo.lock "
+                   "(std only) and tied to it by correspondence, not verified against its source"]
 
 
 def loader_prop(classes, clauses, **kw):
@@ -45,7 +69,8 @@ PROPS = {
                                     "reverse index loops with remove_mapping never index active_mappings out of range; the other mapper operations are total by construction). "
                                     "Bytes -> Value (serde_json) is trusted. On every run the real loader, for_layout and step run under catch_unwind on every case "
                                     "(clauses C14.panic, C14.accepted_wf)")),
-    "C15": loader_prop(["LOAD", "SERDE"], ["C15"],
+    "C15": loader_prop(["LOAD", "SERDE", "TEXT"], ["C15"],
+                       trusted=C15_TRUST, rule=C15_RULE, assumptions=C15_ASSUMPTIONS,
                        explanation=("C15: PROVED C15_roundtrip (for every basic layout L with LoaderCheck.wf_basic L — non-empty duplicate-free triggers, duplicate-free outputs, "
                                     "every key a code of the regenerated key table, i32 delay/interval, absorbing keys among the trigger's modifiers; any length, any repeat incl. "
                                     "Special with empty or multi-key chords, empty outputs — load (Serde.to_json L) = Ok L), C15_loaded_is_wf_basic (every layout the loader "
@@ -53,5 +78,19 @@ PROPS = {
                                     "C15_saved_layout_reloads (load j = Ok L -> load (to_json L) = Ok L), C15_key_names (all 484 entries of the regenerated table: serde name and "
                                     "variant name parse back to the code, serde writes that name, names distinct) by vm_compute. Serde.to_json is the hand-written model of "
                                     "derive(Serialize), compared with the real serde_json::to_value on every accepted layout and on random basic layouts over all key codes; "
-                                    "the real reload is compared as well (clause C15.roundtrip)")),
+                                    "the real reload is compared as well (clause C15.roundtrip). TEXT LEVEL (JsonText.v, JsonTextLemmas.v): C15_saved_text_reloads — for every "
+                                    "wf_basic layout L, load_text (save_text L) = Ok L, where save_text is the byte sequence serde_json::to_writer_pretty writes for the "
+                                    "layout (struct fields in declaration order, PrettyFormatter) and load_text is serde_json's reader into Value (parse_text) followed by "
+                                    "parse_layout_from_json + convert, i.e. load_layout_from_file on a file with these bytes; C15_loaded_then_saved_text_reloads / "
+                                    "C15_loaded_text_then_saved_text_reloads (the same for every layout loaded from a Value / from a text); C15_text_roundtrip_any_value — for "
+                                    "EVERY printable value v (numbers within i64, strings and keys of Unicode scalars) nested less than 128 deep, parse_text (print_pretty v) = "
+                                    "parse_text (print_compact v) = Some (canon v), canon = objects sorted by key with the last duplicate kept; "
+                                    "C15_text_roundtrip_any_whitespace (any formatter whose separators are whitespace); C15_canonical_value_is_fixed (canon is the identity on "
+                                    "a Value; to_json L is canonical; canon (ser_layout L) = to_json L). The reader model covers whitespace, literals, the i64/u64/float "
+                                    "split of numbers incl. the NumberOutOfRange errors of f64_from_parts, all escapes, surrogate pairs and lone surrogates, raw control "
+                                    "characters, UTF-8 validation, BTreeMap insertion, trailing commas and characters, and the recursion limit (127 levels accepted, 128 "
+                                    "rejected — checked against serde_json 1.0.128). On every run (class TEXT): the real to_string_pretty bytes of every input value and of "
+                                    "every saved layout file are compared byte for byte with print_pretty / save_text; ~14 k generated texts (valid and malformed) go through "
+                                    "the real from_str / from_slice / from_reader and through parse_text; load_text is compared with the real load_layout_from_file on every "
+                                    "saved file, on every input written as a file and on re-spaced / mutated layout files")),
 }
